@@ -117,6 +117,59 @@ def mk_data(vals, c):
     raise KeyError(c)
 
 
+NS_CARRIERS = ("list_timestamp", "tuple_timestamp", "objarr_timestamp", "dtindex", "series_naive", "dtindex_utc", "series_utc")
+
+
+def mk_time_ns(ns, c):
+    """times given as integer nanoseconds since the epoch -> carriers able to hold nanoseconds"""
+    import pandas as pd
+
+    base = np.array(ns, dtype="int64").astype("datetime64[ns]")
+    if c == "dt64ns":
+        return base
+    if c == "list_timestamp":
+        return [pd.Timestamp(int(v)) for v in ns]
+    if c == "tuple_timestamp":
+        return tuple(pd.Timestamp(int(v)) for v in ns)
+    if c == "objarr_timestamp":
+        a = np.empty(len(ns), dtype=object)
+        a[:] = [pd.Timestamp(int(v)) for v in ns]
+        return a
+    if c == "dtindex":
+        return pd.DatetimeIndex(base)
+    if c == "dtindex_utc":
+        return pd.DatetimeIndex(base, tz="UTC")
+    if c == "series_naive":
+        return pd.Series(base)
+    if c == "series_utc":
+        return pd.Series(pd.DatetimeIndex(base, tz="UTC"))
+    raise KeyError(c)
+
+
+def check_ns(case):
+    """rate_of_change_test on a 2 s grid whose third sample is 600 ns late; the threshold lies between 1/2 and 1/2.0000006"""
+    from ioos_qc import qartod
+
+    x = case["x"]
+    n = len(x)
+    ns = [int(alpha.T0) * 10 ** 9 + 2 * 10 ** 9 * i + (600 if i == 2 else 0) for i in range(n)]
+    data = np.array([np.nan if v == MISS else float(v) for v in x])
+
+    def run(c):
+        out = alpha.call(qartod.rate_of_change_test, data, mk_time_ns(ns, c), case["thr"])
+        return out if isinstance(out, alpha.Raised) else alpha.flags_of(out)[0]
+    canon, res = run("dt64ns"), run(case["carrier"])
+    vs = []
+    axes = f"tinp={case['carrier']}[ns]"
+    if isinstance(canon, alpha.Raised):
+        vs.append(V(f"{PROP}|rate_of_change_test|canonical-ns|symptom={canon!r}", "rate_of_change_test raised on datetime64[ns] times", None, repr(canon)))
+    elif isinstance(res, alpha.Raised):
+        vs.append(V(f"{PROP}|rate_of_change_test|{axes}|symptom={res!r}", f"rate_of_change_test with {axes} raised {res.name}: {res.msg}", canon, repr(res)))
+    elif res != canon:
+        vs.append(V(f"{PROP}|rate_of_change_test|{axes}|symptom=flags-differ", f"rate_of_change_test with {axes} (nanosecond-resolved instants) returns different flags than with datetime64[ns]", canon, res))
+    return vs, True, tuple(res) if isinstance(res, list) else repr(res), 0, 2
+
+
 def mk_time(secs, c):
     import pandas as pd
 
@@ -319,6 +372,8 @@ def check_vrt(case):
 def check_case(case):
     if case.get("fn") == "valid_range_time":
         return check_vrt(case)
+    if case.get("fn") == "roc_ns":
+        return check_ns(case)
     name, cfg, x = case["fn"], case["cfg"], case["x"]
     logical = logical_inputs(name, x, cfg.get("_step"), cfg.get("_gaps"), cfg.get("_months", False))
     canon = call_with(name, cfg, logical, {})
@@ -359,11 +414,20 @@ def tasks(tier):
         for ci in range(len(cfgs)):
             ts.append((name, ci, NMAX[tier]))
     ts.append(("valid_range_time", 0, NMAX[tier]))
+    ts.append(("roc_ns", 0, NMAX[tier]))
     return ts
 
 
 def run_task(task, acc):
     name, ci, n = task
+    if name == "roc_ns":
+        def gen_n():
+            for x in alpha.all_seqs((1.0, 3.0, MISS), 3, max(n, 4)):
+                for thr in (0.99999985, 1.0, 0.5):
+                    for c in NS_CARRIERS:
+                        yield dict(fn=name, x=list(x), thr=thr, carrier=c)
+        run_cases(acc, gen_n(), check_case)
+        return
     if name == "valid_range_time":
         def gen_v():
             for cfg in (dict(lo=60, hi=180), dict(lo=None, hi=120, end_inclusive=True), dict(lo=60, hi=None, start_inclusive=False)):
